@@ -385,6 +385,9 @@ def run(repo: Repo, rep: Report, tier: str) -> None:
     rep.floor("uses of the handler's iterable in _wrap_handler", check_wrap_handler_uses(repo, rep), 1)
     check_logging_total(repo, rep)
     check_locks_released(repo, rep)
+    from ..delegate import delegate
+    rep.rule("identity-exception-rejects", "an exception raised by the EVT_USER_ID handler rejects the association; only 'no handler bound' (NotImplementedError) accepts (C13's identity-verdict)")
+    delegate(repo, rep, tier, "C13", ("identity-verdict",), "identity-exception-rejects", "an exception the user-identity handler raises is turned into an acceptance instead of the documented A-ASSOCIATE-RJ (0x02, 0x02, 0x01): the association is established for a peer whose identity check failed")
 
 def check_logging_total(repo: Repo, rep: Report) -> None:
     """The containment handlers log what a user handler raised as `LOGGER.exception(exc)`: the record's msg
